@@ -367,6 +367,25 @@ Section Literals.
   Definition program_map (p : program A) : program B := map stmt_map p.
 End Literals.
 
+(* ---- the series term a match denotes ---- *)
+Definition is_series (k : kind) : bool := match k with KVariable | KParameter | KError => true | _ => false end.
+
+(* (row of its name, the index written; 0 when none is written); nothing for functions, keywords, verbatim
+   fragments and terms with a string (period-label) index *)
+Definition match_read (row : string -> option nat) (m : tmatch) : list (option (nat * Z)) :=
+  if is_series (mkind m) then
+    match mk_index (mindex m) with
+    | Ret (IInt k) => [match row (mname m) with Some i => Some (i, k) | None => None end]
+    | _ => []
+    end
+  else [].
+
+(* the text Term.__str__ appends for an integer index: [t] / [t+k] / [t-k] *)
+Definition offset_text (z : Z) : string :=
+  if (0 <? z)%Z then "[t+" ++ string_of_Z z ++ "]"
+  else if (z =? 0)%Z then "[t]"
+  else "[t" ++ string_of_Z z ++ "]".
+
 (* ---- what the script says, independently of trees: the series terms of a statement, in textual order ---- *)
 Fixpoint tok_reads (row : string -> option nat) (ts : list ctok) : list (option (nat * Z)) :=
   match ts with
